@@ -240,6 +240,33 @@ pub fn strict_archive(bytes: &[u8], carry: Chunks, allow_open: bool) -> Result<R
     Ok(a)
 }
 
+/// A part sequence (the chain that starts at `parts[0]` and follows ANXT): every part well-formed, numbered
+/// consecutively, entries complete across boundaries, the last part of the chain without ANXT.  Files beyond
+/// the end of the chain are not part of the archive and are ignored.
+pub fn strict_parts(parts: &[Vec<u8>]) -> Result<usize, String> {
+    let mut carry: Chunks = vec![];
+    let mut first_number: Option<u32> = None;
+    for (i, p) in parts.iter().enumerate() {
+        let a = strict_archive(p, std::mem::take(&mut carry), true).map_err(|e| format!("part {}: {e}", i + 1))?;
+        match first_number {
+            None => first_number = Some(a.number),
+            Some(f) => {
+                if a.number != f.wrapping_add(i as u32) {
+                    return Err(format!("part {}: archive number {} does not continue {}", i + 1, a.number, f));
+                }
+            }
+        }
+        carry = a.open;
+        if !a.has_next {
+            if !carry.is_empty() {
+                return Err(format!("part {}: the last part ends inside an entry", i + 1));
+            }
+            return Ok(i + 1);
+        }
+    }
+    Err("the last part present announces a following part".into())
+}
+
 // ---------------------------------------------------------------- crypto with primitives
 
 fn b64_nopad(s: &str) -> Option<Vec<u8>> {
